@@ -65,7 +65,8 @@ def scn_retry(ctx):
             return ExceptionRetryPolicy.sleep_time(self, attempt, future)
 
     pol = Pol(max_attempts=maxatt, sleep=sleep, exponent=expo, max_sleep=maxs,
-              exception_base=[Retryable] if p.get("base_list", True) else Retryable)
+              exception_base={"list": [Retryable], "class": Retryable, "tuple2": (KeyError, Retryable), "list2": [Retryable, KeyError]}[
+                  p.get("base_form", "list" if p.get("base_list", True) else "class")])
     if basekind == "pool":
         base = Executors.thread_pool(max_workers=2)
     elif basekind == "sync":
@@ -191,12 +192,12 @@ def scn_retry(ctx):
 MUST_REACH = {"*": ["retried"]}
 
 ASSUMPTIONS = [
-    "policy parameters: sleep, max_sleep in [128*eps, 1000], exponent in [1, 8], and in one program (0, 8] with sleep*exponent >= 128*eps; max_attempts in {1,2,3}",
+    "policy parameters: sleep, max_sleep in [128*eps, 1000], exponent in [1, 8], and in one program (0, 8] with sleep*exponent >= 128*eps; max_attempts in {1,2,3,4}; exception_base as a class, a list, a tuple / list of two classes",
     "'exactly then' is asserted only with one submission (absent contention) as t_start <= t_end + delay + 48*eps",
 ]
 BUDGET = {"quick": 150.0, "thorough": 600.0}
 BOUNDS_TEXT = {
-    "quick": "P<=1 preemptions; 1 submission on thread_pool(2) and sync; max_attempts<=3; scripts of 4 outcomes per invocation; raising policy at attempt 1/2",
+    "quick": "P<=1 preemptions; 1 submission on thread_pool(2) and sync; max_attempts 1..4; scripts of 4 outcomes per invocation; raising policy at attempt 1/2",
     "thorough": "P<=2; 2 concurrent submissions; exponent in (0,8]",
 }
 
@@ -211,6 +212,9 @@ def plan(tier, seed):
         items.append(dict(scenario="retry", params=dict(nsub=1, max_attempts=3, base="sync", exp_ge1=False), bounds=dict(P=0)))
         items.append(dict(scenario="retry", params=dict(nsub=1, max_attempts=2, base="pool", slow_callable=True), bounds=dict(P=0)))
         items.append(dict(scenario="retry", params=dict(nsub=1, max_attempts=3, base="sync", policy="raises", raise_in="sleep_time", raise_at=1), bounds=dict(P=0)))
+        items.append(dict(scenario="retry", params=dict(nsub=1, max_attempts=1, base="pool"), bounds=dict(P=1)))
+        items.append(dict(scenario="retry", params=dict(nsub=1, max_attempts=4, base="sync", base_form="tuple2"), bounds=dict(P=0)))
+        items.append(dict(scenario="retry", params=dict(nsub=1, max_attempts=2, base="sync", base_form="list2"), bounds=dict(P=0)))
     else:
         items.append(dict(scenario="retry", params=dict(nsub=1, max_attempts=3, base="pool", exp_ge1=False), bounds=dict(P=2)))
         items.append(dict(scenario="retry", params=dict(nsub=1, max_attempts=3, base="sync"), bounds=dict(P=2)))
